@@ -18,7 +18,7 @@ META = {
 
 def TASKS(tier):
     return (start_tasks(tier, 'start', progress=False) + fold_tasks(tier, 'fold') + keyed_fold_tasks(tier, 'keyed_fold') +
-            window_op_tasks(tier, 'window_operator') +
+            window_op_tasks(tier, 'window_operator') + flat_map_tasks(tier, 'flat_map') +
             [t for t in join_tasks(tier, 'join') if t.params['iters'] > 1])
 
 
